@@ -46,6 +46,38 @@ CLAIMED = {
    note="floats as exact reals; 1-3 materials (4 thorough); wavelength scalar/len-1/len-2 (3 thorough); energy-dependent branch exercised with a 3-node table of symbolic values (real Dy-164 table in thorough)",
    technique="symbolic execution of the real Python closure on z3 Real proxies through numpy; SMT (QF_NRA) validity queries; replay of counterexamples",
    ref='4/C17'),
+
+ 'C11': dict(
+   text=("mix_by_weight / mix_by_volume and the mixture productions of the real grammar run on symbolic quantities, component "
+         "densities, atom masses, cell scalings and (strings) symbolic numeric literals; the mass resp. volume ratios, the atom "
+         "counts, the density (= total mass / total volume, None, or ValueError), total_mass and thickness are proven for all "
+         "real values on every path (forks of q>0, min(), n!=1)."),
+   note="1-3 components (4 thorough); floats as exact reals; component masses recovered from an atom unique to each component; unit factors are the documented powers of ten",
+   technique="symbolic execution of the real Python functions and pyparsing actions on z3 Real proxies + SMT (QF_NRA) validity queries",
+   ref='4/C11'),
+ 'C12': dict(
+   text=("natural_mass_ratio / natural_density (getter, setter, keyword, '@' tags), replace() with symbolic portion, volume() "
+         "with symbolic radii and packing factor, and cell_volume over a cos stub are executed symbolically and proven equal "
+         "to the documented expressions for all real values."),
+   note="floats as exact reals; cos(radians(a)) is an uninterpreted value in [-1,1] functional in a; sqrt stub; formulas of 1-4 atoms",
+   technique="symbolic execution of the real Python functions on z3 Real proxies + SMT (QF_NRA) validity queries",
+   ref='4/C12'),
+ 'C13': dict(
+   text=("(B) the printed-count language (model selected by sampling the live printer, then) proven included in the live count "
+         "regex language over unbounded strings; (C) CrossHair on tag printing composed with the live token actions; (A) concolic "
+         "round trip: str() of formulas with symbolic counts is produced by the real printer (forks on count==1), parsed by the "
+         "real parser with literals mapped back to the same symbols, and the structures are proven equal term-wise on every path."),
+   note="count rounding to six digits checked numerically only; depth<=3; CrossHair isotope printing may be 'Not confirmed' (reported inconclusive)",
+   technique="z3 regex inclusion; CrossHair; symbolic (concolic) execution of the real printer and parser on z3 Real proxies + SMT validity",
+   ref='4/C13'),
+ 'C19': dict(
+   text=("(C) CrossHair searches pairs of atoms built from symbolic symbol/isotope/charge for an insertion-order dependence or a "
+         "departure from the documented order; (A) all orderings and several groupings of up to 4 atoms with symbolic counts: "
+         "Hill form preserves atoms, is idempotent and canonical (structures proven equal term-wise), documented order, and "
+         "parsed Hill-ordered strings equal their own Hill form."),
+   note="ordering facts are concrete per atom set; counts symbolic; CrossHair verdict on the unchanged tree is 'Not confirmed' (inconclusive) - it is a counterexample finder here",
+   technique="CrossHair on the real sort through the public API; symbolic execution on z3 Real proxies + SMT validity for counts",
+   ref='4/C19'),
 }
 
 NOT_APPLICABLE = [
